@@ -61,7 +61,7 @@ for pid in ALL:
         "evidence_file": "/verif/evidence/%s.json" % pid,
         "replay_cmd_template": "./check --replay {path}",
         "engine": "mc",
-        "level_claimed": {"category": "model_checking", "text": text, "design_ref": "DESIGN.md section " + ref},
+        "level_claimed": {"category": "model_checking", "text": text, "design_ref": "DESIGN.md section " + ref + "; as built: 10.6 (additions per property), 10.5 (which seeded changes each check reports)"},
         "level_note": TRUSTED,
         "technique": tech,
     })
